@@ -61,6 +61,17 @@ CHECKS.update({
    text='All names up to length 5/6 over a 14-symbol alphabet (letters, drive colon, both slashes, space, %, #, ?, dot, hex digits, 0x01, 0xFF) are converted to a URI string in a buffer of exactly the documented size that ends at an inaccessible page, checked against the RFC 3986 automaton and the documented form, converted back into a buffer of exactly the documented size and compared with the original; short forms file:/x and file:c:/x are converted as well.',
    ref='DESIGN.md section 3, C18', note=TRUST),
 })
+CHECKS.update({
+ 'C13': dict(cat='exploration', tech='bounded-exhaustive enumeration of (call, inputs, manager kind) with a ledger allocator, link-level interposition of the library objects\' own libc calls, and all 31 incomplete managers',
+   text='Every manager-taking call over the scenario universe is run with a ledger manager, with the NULL manager (libc calls of the library objects are renamed at link level and counted) and with a manager completed from a malloc/free-only backend; six-call operation chains on every URI of the shape product; every non-empty subset of missing function pointers x every manager-taking function. No allocation may bypass a supplied manager, every free presents a live pointer of that manager, nothing is outstanding after the matching release, repeated release frees nothing, incomplete managers are rejected before any call.',
+   ref='DESIGN.md section 3, C13', note=TRUST),
+ 'C14': dict(cat='fault_enumeration', tech='exhaustive fault enumeration: every allocation index of every call fails once, from-k-on, and in all pairs (deviation bound 2), with ledger manager and with libc itself (NULL manager) via interposed allocators',
+   text='For every call of the scenario universe (parse x 3 entry points, makeOwner, normalize x 8 masks x borrowed/owned, resolve x 2, shorten x 2, dissect, compose) a counting run yields n allocation requests; then each k in 1..n fails once, each k fails with all later ones, and every pair fails; custom ledger manager and default libc allocator (failures injected in the interposed malloc/calloc/realloc); both character types. URI_ERROR_MALLOC must be returned, nothing may crash, leak, be freed twice or freed without having been handed out after the ordinary cleanup; read-only inputs are write-protected; an ASan pass watches for touches of released memory.',
+   ref='DESIGN.md section 3, C14', note=TRUST + '; use-after-free is only visible in the sanitizer pass'),
+ 'C15': dict(cat='model_checking', tech='explicit-state BFS over allocator-call sequences on the real completed manager with a recording backend and backend-failure choices, compared step by step with a reference allocator model',
+   text='Breadth-first search over sequences of malloc/calloc/realloc/reallocarray/free calls (sizes 0..4096 and values at SIZE_MAX, exact and overflowing nmemb*size products, NULL and live slots, up to 3 live blocks) on the manager produced by uriCompleteMemoryManager over a malloc/free-only recording backend whose next malloc may be told to fail (at most 2 failures per history), depth 4 (quick) / 6 (thorough); after every call block contents, disjointness, zeroing, prefix preservation, ENOMEM and backend frees are compared with a model; every history ends with freeing everything and an empty backend.',
+   ref='DESIGN.md section 3, C15', note=TRUST),
+})
 NOT_YET = {}
 def main():
     props = [json.loads(l) for l in open(os.path.join(VERIF, 'properties.jsonl'))]
